@@ -28,8 +28,8 @@ pub struct Case {
     pub cancel_after: Option<usize>,
 }
 
-pub const MAKE: [&str; 10] = ["make:plain", "make:exclude-hit", "make:exclude-miss", "make:non-rk", "make:prf", "make:counter", "make:prf-uv-only-unverified", "make:bad-alg", "make:pin-auth", "make:uv-unconfigured"];
-pub const GET: [&str; 10] = ["get:allow", "get:no-list", "get:prf", "get:counterless", "get:prf-no-secret", "get:prf-uv-only-unverified", "get:pin-auth", "get:two-listed", "get:silent", "get:silent-prf"];
+pub const MAKE: [&str; 12] = ["make:client-credprops", "make:client-credprops-prf", "make:plain", "make:exclude-hit", "make:exclude-miss", "make:non-rk", "make:prf", "make:counter", "make:prf-uv-only-unverified", "make:bad-alg", "make:pin-auth", "make:uv-unconfigured"];
+pub const GET: [&str; 11] = ["get:client-prf", "get:allow", "get:no-list", "get:prf", "get:counterless", "get:prf-no-secret", "get:prf-uv-only-unverified", "get:pin-auth", "get:two-listed", "get:silent", "get:silent-prf"];
 pub const CODES: [u8; 6] = [0x00, 0x01, 0x28, 0x2E, 0x7F, 0xF0];
 
 fn seeds() -> Vec<Passkey> {
@@ -74,6 +74,37 @@ where
     let ask_uv = !uv_only && !silent;
     let mut auth = mk_auth(store, uv, &cfg);
     let prf = || AuthenticatorPrfInputs { eval: Some(AuthenticatorPrfValues { first: [1; 32], second: None }), eval_by_credential: None };
+    if request.contains(":client-") {
+        // the same ceremonies through the WebAuthn client, with extension requests the client
+        // itself has to answer (credProps) or to translate (prf)
+        use passkey_types::webauthn;
+        let mut client = passkey_client::Client::new(auth);
+        let origin = url::Url::parse("https://example.com").unwrap();
+        let byte = |e: passkey_client::WebauthnError| match e {
+            passkey_client::WebauthnError::AuthenticatorError(b) => b,
+            passkey_client::WebauthnError::CredentialNotFound => 0x2E,
+            _ => 0xFF,
+        };
+        let wprf = || webauthn::AuthenticationExtensionsPrfInputs { eval: Some(webauthn::AuthenticationExtensionsPrfValues { first: vec![1, 2, 3].into(), second: None }), eval_by_credential: None };
+        if request.starts_with("make") {
+            let ext = Some(webauthn::AuthenticationExtensionsClientInputs { cred_props: Some(true), prf: request.ends_with("-prf").then(wprf), prf_already_hashed: None });
+            let sel = Some(webauthn::AuthenticatorSelectionCriteria { authenticator_attachment: None, resident_key: None, require_resident_key: true, user_verification: Default::default() });
+            let opts = creation_options(Reg { user_id: vec![7, 7], selection: sel, extensions: ext, ..Default::default() });
+            return Res::Make(client.register(&origin, opts, passkey_client::DefaultClientData).await.map(|c| c.raw_id.to_vec()).map_err(byte));
+        }
+        let ext = Some(webauthn::AuthenticationExtensionsClientInputs { cred_props: None, prf: Some(wprf()), prf_already_hashed: None });
+        let opts = request_options(Auth { allow: Some(vec![cred_id(1)]), extensions: ext, ..Default::default() });
+        return Res::Get(
+            client
+                .authenticate(&origin, opts, passkey_client::DefaultClientData)
+                .await
+                .map(|c| {
+                    let ad = c.response.authenticator_data.to_vec();
+                    (c.raw_id.to_vec(), ad.get(33..37).map(|b| u32::from_be_bytes([b[0], b[1], b[2], b[3]])).unwrap_or(0))
+                })
+                .map_err(byte),
+        );
+    }
     if request.starts_with("make") {
         let exclude = match request.as_str() {
             "make:exclude-hit" => Some(vec![cred_id(1)]),
@@ -375,7 +406,7 @@ pub fn run(ctx: &Ctx) -> Result<Run, String> {
     }
     let mut run = Run::from_stats(
         "fault_enumeration",
-        "requests {make: plain, exclude-list hit, exclude-list miss, non-rk, PRF, counter, PRF evaluation that fails late (verification-gated secrets, unverified ceremony), unsupported algorithm, pin-auth, verification unconfigured; get: allow list, no list, PRF, counter-less, PRF on a credential without secret, PRF that fails late, pin-auth, two listed credentials, silent (up = uv = false, nothing reported) with and without PRF} x store stack {contract store, behind Arc<Mutex>, behind Arc<RwLock>} x fault plans over the faultable store calls (every single call x 6 status codes, every subset of >= 2 calls with KeyStoreFull; thorough: subsets x 6 codes and single faults x all 256 bytes) x cancellation after every k < polls-to-completion (every store call and the user step suspend once); plus cancellation-only runs on Arc<Mutex<MemoryStore>> and Arc<RwLock<Option<Passkey>>>. Oracle: store snapshot before/after against a model that applies only the calls that returned Ok, call log, result. Every (request, store, plan, cancellation point) is a distinct case",
+        "requests {make through the client with credProps (and prf), get through the client with prf; make: plain, exclude-list hit, exclude-list miss, non-rk, PRF, counter, PRF evaluation that fails late (verification-gated secrets, unverified ceremony), unsupported algorithm, pin-auth, verification unconfigured; get: allow list, no list, PRF, counter-less, PRF on a credential without secret, PRF that fails late, pin-auth, two listed credentials, silent (up = uv = false, nothing reported) with and without PRF} x store stack {contract store, behind Arc<Mutex>, behind Arc<RwLock>} x fault plans over the faultable store calls (every single call x 6 status codes, every subset of >= 2 calls with KeyStoreFull; thorough: subsets x 6 codes and single faults x all 256 bytes) x cancellation after every k < polls-to-completion (every store call and the user step suspend once); plus cancellation-only runs on Arc<Mutex<MemoryStore>> and Arc<RwLock<Option<Passkey>>>. Oracle: store snapshot before/after against a model that applies only the calls that returned Ok, call log, result. Every (request, store, plan, cancellation point) is a distinct case",
         true,
         stats,
     );
